@@ -1,6 +1,6 @@
 ---------------------------- MODULE MCFreezer ----------------------------
 (* Model-checking wrapper of Freezer.tla: bounded histories (items, sizes, crashes).        *)
-EXTENDS Freezer
+EXTENDS Freezer, Json
 
 CONSTANTS Sizes,        \* item sizes (bytes on disk) tried
           MaxItems,     \* ids handed out at most
@@ -8,25 +8,36 @@ CONSTANTS Sizes,        \* item sizes (bytes on disk) tried
           MaxCrashes,   \* crashes per behaviour at most
           TailBeyondSync \* explore TruncateTail(n) with n above the head covered by the last completed sync
 
-VARIABLE crashes
+VARIABLES crashes,
+          hist     \* the public calls made so far, as driver script tokens (a<k> s h<n> t<n> c); not part of the VIEW
 
 Groups1 == [t \in Tables |-> "g"]                     \* all tables prunable together
 GroupsMixed == [t \in Tables |-> IF t = "a" THEN "" ELSE "g"]   \* table "a" is not prunable
 
-MCInit == Init /\ crashes = 0
+MCInit == Init /\ crashes = 0 /\ hist = <<>>
+Tok(c, n) == [c |-> c, n |-> n]
 
 SizeFns(k) == [Tables -> [1..k -> Sizes]]
 
 MCNext ==
-  \/ Open /\ UNCHANGED crashes
-  \/ Step /\ UNCHANGED crashes
-  \/ (g.next <= MaxItems /\ \E k \in 1..Min(MaxBatch, MaxItems - g.next + 1) : \E sz \in SizeFns(k) :
-        AppendItems([j \in 1..k |-> g.next + j - 1], sz)) /\ UNCHANGED crashes
-  \/ Sync /\ UNCHANGED crashes
-  \/ (\E n \in 0..MaxItems : TruncateHead(n)) /\ UNCHANGED crashes
-  \/ (\E grp \in Groups, n \in 1..MaxItems : (TailBeyondSync \/ n <= g.hi) /\ TruncateTail(grp, n)) /\ UNCHANGED crashes
+  \/ Open /\ UNCHANGED <<crashes, hist>>
+  \/ Step /\ UNCHANGED <<crashes, hist>>
+  \/ /\ g.next <= MaxItems
+     /\ \E k \in 1..Min(MaxBatch, MaxItems - g.next + 1) : \E sz \in SizeFns(k) :
+          AppendItems([j \in 1..k |-> g.next + j - 1], sz) /\ hist' = Append(hist, Tok("a", k))
+     /\ UNCHANGED crashes
+  \/ Sync /\ hist' = Append(hist, Tok("s", 0)) /\ UNCHANGED crashes
+  \/ (\E n \in 0..MaxItems : TruncateHead(n) /\ hist' = Append(hist, Tok("h", n))) /\ UNCHANGED crashes
+  \/ (\E grp \in Groups, n \in 1..MaxItems : (TailBeyondSync \/ n <= g.hi) /\ TruncateTail(grp, n) /\ hist' = Append(hist, Tok("t", n)))
+     /\ UNCHANGED crashes
   \/ crashes < MaxCrashes /\ Crash /\ crashes' = crashes + 1
-  \/ CrashCut /\ UNCHANGED crashes
+     /\ hist' = IF queue = <<>> THEN Append(hist, Tok("c", 0)) ELSE hist    \* the driver's main line crashes between calls
+  \/ CrashCut /\ UNCHANGED <<crashes, hist>>
 
-MCSpec == MCInit /\ [][MCNext]_<<vars, crashes>>
+MCSpec == MCInit /\ [][MCNext]_<<vars, crashes, hist>>
+View == <<vars, crashes>>
+
+(* simulation mode: print the call history of every behaviour once it has SimCalls calls and is idle *)
+SimCalls == 7
+Emit == IF Idle /\ Len(hist) >= SimCalls THEN PrintT(<<"MBT", ToJson(hist)>>) /\ FALSE ELSE TRUE
 =============================================================================
